@@ -95,7 +95,10 @@ def generate(run_seed, tier):
                                "empty_r", "flip_r", "join"])
                      for _ in range(nf)]
         items.append(dict(fmt=fmt, r=_val(r, n), s=_val(r, n), faults=kinds,
-                          fseed=r.getrandbits(32), mv=r.random() < 0.3))
+                          fseed=r.getrandbits(32), mv=r.random() < 0.3,
+                          buf=r.choice(["bytes", "bytes", "bytes", "mv",
+                                        "bytearray", "arrayB", "arrayH",
+                                        "mvH", "arrayI"])))
     return dict(order=n, items=items)
 
 
@@ -172,7 +175,7 @@ def execute(prog):
                 if data != before:
                     descr.append(k)
                     core.bump(out["faults"], "strings_" + k)
-            arg = [memoryview(x) if it.get("mv") else x for x in data]
+            arg = [_as_buffer(x, it.get("buf", "bytes")) for x in data]
             if rnd.random() < 0.5:
                 arg = tuple(arg)
             log.append((fmt, [x.hex() for x in data]))
@@ -185,7 +188,7 @@ def execute(prog):
                     core.bump(out["faults"], k)
                 data = nd
             prev = enc
-            arg = memoryview(data) if it.get("mv") else data
+            arg = _as_buffer(data, it.get("buf", "bytes"))
             log.append((fmt, data.hex()))
         faulted = bool(descr)
         if faulted:
@@ -278,6 +281,29 @@ def execute(prog):
     out["digest"] = core.digest_of(log)
     out["steps"] = out["ops"]       # deliveries
     return out
+
+
+def _as_buffer(data, kind):
+    """The same bytes presented as different bytes-like objects (the decoders
+    document 'bytes like object'): what counts is the buffer's bytes, not the
+    item size of the container."""
+    import array
+    if kind == "mv":
+        return memoryview(data)
+    if kind == "bytearray":
+        return bytearray(data)
+    if kind == "arrayB":
+        return array.array("B", data)
+    if kind in ("arrayH", "mvH") and len(data) % 2 == 0 and data:
+        a = array.array("H")
+        a.frombytes(data)
+        return a if kind == "arrayH" else memoryview(a)
+    if kind == "arrayI" and len(data) % 4 == 0 and data:
+        a = array.array("I")
+        if a.itemsize == 4:
+            a.frombytes(data)
+            return a
+    return data
 
 
 def _show(d):
